@@ -201,9 +201,16 @@ impl<'a> SendLastStateProofProcess<'a> {
 
         if failed_to_verify_tau {
             // Ask for new sampled headers if all checks are passed, expect the TAU check.
+            // The last state in the storage may have been updated by another peer since the
+            // previous request was sent: then the new request can't start from it anymore, and
+            // without a new request the peer would wait until it is disconnected for timeout.
             if let Some(content) = self
                 .protocol
                 .build_prove_request_content(&peer_state, &last_header)
+                .or_else(|| {
+                    self.protocol
+                        .build_prove_request_content_from_genesis(&last_header)
+                })
             {
                 let mut prove_request =
                     ProveRequest::new(LastState::new(last_header), content.clone());
